@@ -1,4 +1,5 @@
 #include "ephemeralnet/core/Node.hpp"
+#include "ephemeralnet/VerifProbe.hpp"
 
 #include "ephemeralnet/Types.hpp"
 #include "ephemeralnet/network/AdvertiseDiscovery.hpp"
@@ -416,6 +417,7 @@ std::optional<std::pair<std::string, std::uint16_t>> parse_endpoint(const std::s
 
 std::vector<Node::ControlEndpoint> Node::preferred_control_endpoints() const {
     std::vector<ControlEndpoint> endpoints;
+    EPH_VERIF_ACCESS("advertised_endpoints", "Node::preferred_control_endpoints", false);
     endpoints.reserve(config_.advertised_endpoints.size() + config_.auto_advertise_candidates.size() + 2);
     std::unordered_set<std::string> seen;
 
@@ -503,11 +505,13 @@ void Node::schedule_assigned_fetch(const protocol::AnnouncePayload& payload) {
     const auto now = std::chrono::steady_clock::now();
 
     SchedulerLock lock(scheduler_mutex_);
+    EPH_VERIF_ACCESS("manifest_cache", "Node::cache_insert(announce)", true);
     manifest_cache_[chunk_key] = manifest;
 
     note_peer_seed(payload.chunk_id, payload.peer_id);
     note_local_leecher(payload.chunk_id);
 
+    EPH_VERIF_ACCESS("fetch_table", "Node::schedule_assigned_fetch", true);
     auto [it, inserted] = pending_chunk_fetches_.try_emplace(key);
     auto& state = it->second;
 
@@ -630,6 +634,7 @@ bool Node::dispatch_pending_fetch(PendingFetchState& state) {
 void Node::process_pending_fetches() {
     SchedulerLock lock(scheduler_mutex_);
 
+    EPH_VERIF_ACCESS("fetch_table", "Node::process_pending_fetches", true);
     if (pending_chunk_fetches_.empty()) {
         return;
     }
@@ -805,6 +810,7 @@ void Node::clear_pending_fetch(const std::string& key) {
 std::size_t Node::count_known_providers(const ChunkId& chunk_id) {
     SchedulerLock lock(scheduler_mutex_);
 
+    EPH_VERIF_ACCESS("dht", "Node::fetch_chunk", true);
     auto providers = dht_.find_providers(chunk_id);
     if (providers.empty()) {
         return 0;
@@ -873,6 +879,7 @@ std::string Node::make_upload_key(const PeerId& peer_id, const ChunkId& chunk_id
 void Node::note_upload_start(const PendingUploadRequest& request, std::size_t payload_size) {
     SchedulerLock lock(scheduler_mutex_);
 
+    EPH_VERIF_ACCESS("upload_table", "Node::note_upload_start", true);
     const auto key = make_upload_key(request.peer_id, request.chunk_id);
     ActiveUploadState state{};
     state.chunk_id = request.chunk_id;
@@ -895,6 +902,7 @@ void Node::note_upload_start(const PendingUploadRequest& request, std::size_t pa
 void Node::note_upload_end(const PeerId& peer_id, const ChunkId& chunk_id, bool /*success*/) {
     SchedulerLock lock(scheduler_mutex_);
 
+    EPH_VERIF_ACCESS("upload_table", "Node::note_upload_end", true);
     const auto key = make_upload_key(peer_id, chunk_id);
     const auto it = active_uploads_.find(key);
     if (it == active_uploads_.end()) {
@@ -1050,6 +1058,7 @@ std::uint8_t Node::outbound_message_version_for(const PeerId& peer_id) const {
     const auto preferred = preferred_message_version();
     const auto minimum = std::max<std::uint8_t>(config_.protocol_min_supported_version, protocol::kMinimumMessageVersion);
     const auto key = peer_id_to_string(peer_id);
+    EPH_VERIF_ACCESS("peer_versions", "Node::outbound_message_version_for", false);
     const auto it = peer_message_versions_.find(key);
     if (it != peer_message_versions_.end()) {
         const auto remote_version = it->second;
@@ -1071,6 +1080,7 @@ void Node::note_peer_message_version(const PeerId& peer_id, std::uint8_t version
     }
     SchedulerLock lock(scheduler_mutex_);
     const auto key = peer_id_to_string(peer_id);
+    EPH_VERIF_ACCESS("peer_versions", "Node::note_peer_message_version", true);
     peer_message_versions_[key] = std::max<std::uint8_t>(version, config_.protocol_min_supported_version);
 }
 
@@ -1078,6 +1088,7 @@ bool Node::register_incoming_announce(const PeerId& peer_id, std::chrono::steady
     SchedulerLock lock(scheduler_mutex_);
 
     const auto key = peer_id_to_string(peer_id);
+    EPH_VERIF_ACCESS("announce_throttle", "Node::register_incoming_announce", true);
     auto& history = peer_announce_history_[key];
 
     if (config_.announce_burst_window > std::chrono::seconds::zero()) {
@@ -1408,6 +1419,7 @@ Node::~Node() {
 void Node::announce_chunk(const ChunkId& chunk_id, std::chrono::seconds ttl) {
     SchedulerLock lock(scheduler_mutex_);
     PeerContact self_contact{.id = id_, .address = peer_id_to_string(id_), .expires_at = std::chrono::steady_clock::now() + ttl};
+    EPH_VERIF_ACCESS("dht", "Node::announce_chunk", true);
     dht_.add_contact(chunk_id, self_contact, ttl);
 }
 
@@ -1585,6 +1597,7 @@ protocol::Manifest Node::store_chunk(const ChunkId& chunk_id,
 
     {
         SchedulerLock lock(scheduler_mutex_);
+        EPH_VERIF_ACCESS("manifest_cache", "Node::cache_insert(store)", true);
         manifest_cache_[chunk_id_to_string(chunk_id)] = manifest;
         dht_.publish_shards(chunk_id, manifest.shards, manifest.threshold, manifest.total_shares, sanitized_ttl);
     }
@@ -1615,6 +1628,7 @@ bool Node::ingest_manifest(const std::string& manifest_uri) {
 
     {
         SchedulerLock lock(scheduler_mutex_);
+        EPH_VERIF_ACCESS("manifest_cache", "Node::cache_insert(manifest)", true);
         manifest_cache_[chunk_id_to_string(manifest.chunk_id)] = manifest;
         dht_.publish_shards(manifest.chunk_id, manifest.shards, manifest.threshold, manifest.total_shares, *ttl);
     }
@@ -1670,6 +1684,7 @@ std::optional<ChunkData> Node::receive_chunk(const std::string& manifest_uri, Ch
 
     {
         SchedulerLock lock(scheduler_mutex_);
+        EPH_VERIF_ACCESS("manifest_cache", "Node::cache_insert(manifest)", true);
         manifest_cache_[chunk_id_to_string(manifest.chunk_id)] = manifest;
         dht_.publish_shards(manifest.chunk_id, manifest.shards, manifest.threshold, manifest.total_shares, *ttl);
     }
@@ -1725,6 +1740,7 @@ bool Node::request_chunk(const PeerId& peer_id,
 
     {
         SchedulerLock lock(scheduler_mutex_);
+        EPH_VERIF_ACCESS("manifest_cache", "Node::cache_insert(manifest)", true);
         manifest_cache_[chunk_id_to_string(manifest.chunk_id)] = manifest;
     }
     note_peer_seed(manifest.chunk_id, peer_id);
@@ -1841,6 +1857,7 @@ std::optional<ChunkData> Node::fetch_chunk(const ChunkId& chunk_id) {
     std::vector<PeerContact> providers;
     {
         SchedulerLock lock(scheduler_mutex_);
+        EPH_VERIF_ACCESS("dht", "Node::fetch_chunk", true);
         providers = dht_.find_providers(chunk_id);
     }
     if (providers.empty()) {
@@ -1871,6 +1888,7 @@ std::optional<std::array<std::uint8_t, 32>> Node::rotate_session_key(const PeerI
 
 std::optional<SwarmDistributionPlan> Node::swarm_plan(const ChunkId& chunk_id) const {
     SchedulerLock lock(scheduler_mutex_);
+    EPH_VERIF_ACCESS("swarm_plans", "Node::swarm_plan", false);
     const auto it = swarm_plans_.find(chunk_id_to_string(chunk_id));
     if (it == swarm_plans_.end()) {
         return std::nullopt;
@@ -1892,6 +1910,7 @@ bool Node::perform_handshake(const PeerId& peer_id,
     const auto now = std::chrono::steady_clock::now();
     const auto key = peer_id_to_string(peer_id);
 
+    EPH_VERIF_ACCESS("handshake_state", "Node::perform_handshake", true);
     const auto existing = handshake_state_.find(key);
     if (existing != handshake_state_.end()) {
         const auto elapsed = now - existing->second.last_attempt;
@@ -1951,6 +1970,7 @@ int Node::reputation_score(const PeerId& peer_id) const {
 }
 
 std::optional<bool> Node::last_handshake_success(const PeerId& peer_id) const {
+    EPH_VERIF_ACCESS("handshake_state", "Node::last_handshake_success", false);
     const auto it = handshake_state_.find(peer_id_to_string(peer_id));
     if (it == handshake_state_.end()) {
         return std::nullopt;
@@ -1969,6 +1989,7 @@ Node::PowStatistics Node::pow_statistics() const {
 
 std::vector<std::string> Node::drain_cleanup_notifications() {
     std::vector<std::string> notifications;
+    EPH_VERIF_ACCESS("cleanup_notifications", "Node::drain_cleanup_notifications", true);
     notifications.swap(cleanup_notifications_);
     return notifications;
 }
@@ -2069,6 +2090,7 @@ void Node::tick() {
             const auto key = chunk_id_to_string(chunk_id);
             {
                 SchedulerLock lock(scheduler_mutex_);
+                EPH_VERIF_ACCESS("cleanup_notifications", "Node::tick(notify)", true);
                 cleanup_notifications_.push_back(key);
                 dht_.withdraw_contact(chunk_id, id_);
             }
@@ -2076,6 +2098,7 @@ void Node::tick() {
         }
         {
             SchedulerLock lock(scheduler_mutex_);
+            EPH_VERIF_ACCESS("dht", "Node::tick(sweep)", true);
             dht_.sweep_expired();
 
             // Cached manifests and the swarm plans built from them must not outlive the
@@ -2086,6 +2109,7 @@ void Node::tick() {
             for (const auto& entry : chunk_store_.snapshot()) {
                 stored_keys.insert(entry.key);
             }
+            EPH_VERIF_ACCESS("manifest_cache", "Node::tick(prune)", true);
             for (auto it = manifest_cache_.begin(); it != manifest_cache_.end();) {
                 const auto& manifest = it->second;
                 const auto pending_it = pending_chunk_fetches_.find(it->first);
@@ -2186,6 +2210,7 @@ bool Node::send_secure(const PeerId& peer_id, std::span<const std::uint8_t> payl
 
 void Node::register_peer_contact(PeerContact contact) {
     SchedulerLock lock(scheduler_mutex_);
+    EPH_VERIF_ACCESS("dht", "Node::register_peer_contact", true);
     dht_.register_peer(std::move(contact));
 }
 
@@ -2466,6 +2491,7 @@ void Node::handle_announce(const protocol::AnnouncePayload& payload,
     {
         SchedulerLock lock(scheduler_mutex_);
         const auto chunk_key = chunk_id_to_string(manifest.chunk_id);
+        EPH_VERIF_ACCESS("manifest_cache", "Node::cache_insert(announce)", true);
         manifest_cache_[chunk_key] = manifest;
         dht_.publish_shards(manifest.chunk_id, manifest.shards, manifest.threshold, manifest.total_shares, *ttl_opt);
         update_swarm_plan(manifest);
@@ -2482,6 +2508,7 @@ void Node::handle_announce(const protocol::AnnouncePayload& payload,
             contact.id = sender;
             contact.address = payload.endpoint;
             contact.expires_at = now + advertised_ttl;
+            EPH_VERIF_ACCESS("dht", "Node::handle_announce", true);
             dht_.add_contact(payload.chunk_id, std::move(contact), advertised_ttl);
         }
     }
@@ -2500,6 +2527,7 @@ std::optional<std::array<std::uint8_t, 32>> Node::session_shared_key(const PeerI
 std::optional<protocol::Manifest> Node::manifest_for_chunk(const ChunkId& chunk_id) const {
     SchedulerLock lock(scheduler_mutex_);
     const auto key = chunk_id_to_string(chunk_id);
+    EPH_VERIF_ACCESS("manifest_cache", "Node::manifest_for_chunk", false);
     const auto it = manifest_cache_.find(key);
     if (it == manifest_cache_.end()) {
         return std::nullopt;
@@ -2531,6 +2559,7 @@ void Node::update_swarm_plan(const protocol::Manifest& manifest) {
         plan.diagnostics.emplace_back("Swarm coordinator produced no assignments.");
     }
 
+    EPH_VERIF_ACCESS("swarm_plans", "Node::update_swarm_plan", true);
     swarm_plans_[key] = std::move(plan);
 }
 
@@ -2735,6 +2764,7 @@ std::string Node::self_endpoint() const {
 }
 
 void Node::refresh_advertised_endpoints() {
+    EPH_VERIF_ACCESS("advertised_endpoints", "Node::refresh_advertised_endpoints", true);
     config_.auto_advertise_candidates.clear();
     config_.auto_advertise_warnings.clear();
     config_.auto_advertise_conflict = false;
